@@ -183,6 +183,21 @@ Theorem run_length_spec_is_the_spec :
 Proof. exact (conj pearson_w_expand dpa_spec_w_expand). Qed.
 Print Assumptions run_length_spec_is_the_spec.
 
+(* compute() between updates: in EVERY history of update(batch) / compute() calls, each compute() returns the statistic of
+   the rows fed so far — whatever was computed before (compute is pure; entries that were undefined at an earlier compute
+   become defined as soon as their columns stop being degenerate).  [run] is Model/Accum.run, [spec_history spec [] h] lists
+   spec (rows fed before that call) for every Compute of h. *)
+Theorem compute_in_any_history :
+  (forall h : list (op obs),
+     snd (run cst obs (option triple) cst_zero cst_plus cpa_contrib cpa_comp cst_zero h) = spec_history pearson [] h)
+  /\ (forall h : list (op obs),
+     snd (run cst obs (option triple) cst_zero cst_plus cpa_contrib cpa_alt_comp cst_zero h)
+     = spec_history (fun l => option_map (scale3 (qlen l)) (pearson l)) [] h)
+  /\ (forall h : list (op dobs),
+     snd (run dst dobs (option Qc) dst_zero dst_plus dpa_contrib dpa_comp dst_zero h) = spec_history dpa_spec [] h).
+Proof. exact (conj cpa_history_thm (conj cpa_alt_history_thm dpa_history_thm)). Qed.
+Print Assumptions compute_in_any_history.
+
 (* ================================================================ non-vacuity *)
 Definition q (z : Z) : Qc := qz z.
 Definition show3 (t : option triple) : option (Q * Q * Q) :=
@@ -253,3 +268,14 @@ Definition ex_rl (v : fval) : rl_case :=
      r_obs_shape := [1; 1]%nat; r_obs := [v] |}.
 Example ex_rl_check : rl_check (ex_rl (Fin 1 0)) = true /\ rl_check (ex_rl PInf) = false /\ rl_check (ex_rl (Fin 1 3)) = false.
 Proof. repeat split; vm_compute; reflexivity. Qed.
+
+(* a history: one row with bit 0 (bit-1 class empty: undefined), compute, two more rows, compute (defined: 8 - 3 = 5), compute *)
+Example ex_history :
+  map (option_map this) (snd (run dst dobs (option Qc) dst_zero dst_plus dpa_contrib dpa_comp dst_zero
+        [Update [(q 4, false)]; Compute; Update [(q 8, true); (q 2, false)]; Compute; Compute]))
+  = [None; Some (5 # 1)%Q; Some (5 # 1)%Q].
+Proof. vm_compute. reflexivity. Qed.
+Example ex_hist_check :
+  hist_check {| h_final := ex_case (Fin 1141870915999781 (-51)) NaN; h_prefix := [(1%nat, ([1; 2]%nat, [NaN; NaN])); (3%nat, ([1; 2]%nat, [Fin (-5896596054914346) (-53); NaN]))] |} = true
+  /\ hist_check {| h_final := ex_case (Fin 1141870915999781 (-51)) NaN; h_prefix := [(3%nat, ([1; 2]%nat, [NaN; NaN]))] |} = false.
+Proof. split; vm_compute; reflexivity. Qed.
